@@ -115,6 +115,10 @@ def gen_region_case(rng):
         axes[0] = gen_axis(rng, "aligned")
         if axes[0]["sl"] == (None, None, None):
             axes[0]["sl"] = (0, None, None)
+    if rng.random() < 0.1:
+        # sharded target: the model's chunk size is the shard size
+        for a in axes:
+            a["inner"] = rng.choice([d for d in range(1, a["cs"] + 1) if a["cs"] % d == 0])
     if nd > 1 and rng.random() < 0.06:
         # region tuple shorter than ndim: no entry for the trailing axes (their source extent = the whole axis)
         for a in axes[rng.randint(1, nd - 1):]:
@@ -171,7 +175,12 @@ def real_region(env, axes, run=True):
     chunks = tuple(a["cs"] for a in axes)
     mshape = tuple(a["m"] for a in axes)
     p = env.fresh()
-    z = zarr.create_array(p, shape=shape, chunks=chunks, dtype="int64", fill_value=0)
+    if any(a.get("inner") for a in axes):
+        # sharded target: `cs` is the shard size, the stored (inner) chunks divide it
+        z = zarr.create_array(p, shape=shape, chunks=tuple(a.get("inner") or a["cs"] for a in axes), shards=chunks,
+                              dtype="int64", fill_value=0)
+    else:
+        z = zarr.create_array(p, shape=shape, chunks=chunks, dtype="int64", fill_value=0)
     z[...] = -1
     src = xp.asarray(np.arange(1, _prod(mshape) + 1, dtype="int64").reshape(mshape), chunks=tuple(a["sc"] for a in axes),
                      spec=env.spec)
@@ -245,6 +254,8 @@ def prep_regions(ctx, n):
         [{"n": 4, "cs": 2, "sl": (2, 4, None), "m": 2, "sc": 2}, {"n": 4, "cs": 2, "sl": (None, None, None), "m": 4, "sc": 2, "absent": True}],
         [{"n": 10, "cs": 4, "sl": (0, 12, None), "m": 10, "sc": 3}],
         [{"n": 8, "cs": 4, "sl": (4, 4, None), "m": 1, "sc": 1}],
+        [{"n": 16, "cs": 8, "inner": 2, "sl": (8, 16, None), "m": 8, "sc": 4}],
+        [{"n": 16, "cs": 8, "inner": 2, "sl": (4, 12, None), "m": 8, "sc": 4}],
     ]
     cases = fixed + cases
     reqs = [region_request(c) for c in cases]
@@ -281,10 +292,12 @@ def check_regions(ctx, env, cases, reqs, ans):
 
 def region_oracle_case(axes):
     """The same request as an end-to-end oracle case."""
+    sharded = any(a.get("inner") for a in axes)
     return {"shape": [a["m"] for a in axes],
             "pool": [{"op": "asarray", "chunks": [a["sc"] for a in axes]}],
-            "pairs": [{"src": 0, "target": {"kind": "array", "shape": [a["n"] for a in axes], "chunks": [a["cs"] for a in axes],
-                                            "shards": None},
+            "pairs": [{"src": 0, "target": {"kind": "array", "shape": [a["n"] for a in axes],
+                                            "chunks": [(a.get("inner") or a["cs"]) if sharded else a["cs"] for a in axes],
+                                            "shards": [a["cs"] for a in axes] if sharded else None},
                        "region": [list(a["sl"]) for a in axes if not a.get("absent")]}],
             "api": "store", "compute": "eager", "executor": "single"}
 
@@ -793,6 +806,23 @@ WITNESSES = [
     {"shape": [2, 4], "pool": [{"op": "asarray", "chunks": [2, 2]}],
      "pairs": [{"src": 0, "target": {"kind": "array", "shape": [4, 4], "chunks": [2, 2], "shards": None}, "region": [[2, 4, None]]}],
      "api": "store", "compute": "eager", "executor": "single"},
+    # a lazy source re-targeted into an existing array chunked differently, then used again (known finding)
+    {"shape": [4, 4], "pool": [{"op": "asarray", "chunks": [4, 2]}, {"op": "add1", "arg": 0}],
+     "pairs": [{"src": 1, "target": {"kind": "array", "shape": [4, 4], "chunks": [2, 1], "shards": None}, "region": None},
+               {"src": 1, "target": {"kind": "array", "shape": [8, 8], "chunks": [4, 2], "shards": None},
+                "region": [[0, 4, None], [0, 4, None]]}],
+     "api": "store", "compute": "eager", "executor": "single"},
+    # region into a sharded array under the parallel executor (repaired by b3e0575): must hold
+    {"shape": [8], "pool": [{"op": "asarray", "chunks": [4]}],
+     "pairs": [{"src": 0, "target": {"kind": "array", "shape": [16], "chunks": [2], "shards": [8]}, "region": [[8, 16, None]]}],
+     "api": "store", "compute": "eager", "executor": "threads"},
+    {"shape": [8], "pool": [{"op": "asarray", "chunks": [4]}, {"op": "add1", "arg": 0}],
+     "pairs": [{"src": 1, "target": {"kind": "array", "shape": [16], "chunks": [2], "shards": [8]}, "region": [[8, 16, None]]}],
+     "api": "to_zarr", "compute": "lazy", "executor": "threads"},
+    {"shape": [4, 8], "pool": [{"op": "asarray", "chunks": [2, 2]}],
+     "pairs": [{"src": 0, "target": {"kind": "array", "shape": [8, 8], "chunks": [1, 2], "shards": [4, 4]},
+                "region": [[4, 8, None], [0, 8, None]]}],
+     "api": "store", "compute": "eager", "executor": "threads"},
     # healthy: two sources into disjoint regions of one target; one in-memory source into two targets
     {"shape": [4], "pool": [{"op": "asarray", "chunks": [2]}, {"op": "add1", "arg": 0}],
      "pairs": [{"src": 0, "target": {"kind": "array", "shape": [8], "chunks": [2], "shards": None}, "region": [[0, 4, None]]},
